@@ -647,6 +647,13 @@ pub async fn run(a: &Args) -> Report {
         let mut e = t.server_entry("127.0.0.1", p(), "tcp");
         e["ssl"] = json!({"certificateFile": "/nonexistent/cert.pem", "keyFile": "/nonexistent/key.pem", "serverName": "x"});
         bad.push(("missing-certificate-files", e));
+        // a `quic` section that cannot be honoured: the entry must not come up as a TCP-only service without a word
+        for (name, proto) in [("vmess-quic-section-with-missing-certificate", Proto::Vmess(3)), ("trojan-quic-section-with-missing-certificate", Proto::Trojan)] {
+            let c = Cfg::random(&mut rng, proto, 1);
+            let mut e = c.server_entry("127.0.0.1", p(), "tcp");
+            e["quic"] = json!({"certificateFile": "/nonexistent/cert.pem", "keyFile": "/nonexistent/key.pem", "serverName": "x"});
+            bad.push((name, e));
+        }
         // an entry without its credential: nothing may listen (least of all something that takes the digest of "")
         for (name, proto) in [("trojan-without-password", Proto::Trojan), ("shadowsocks-without-password", Proto::Ss(refimpl::ss::Method::Aes128Gcm)), ("shadowsocks-2022-without-password", Proto::Ss(refimpl::ss::Method::B3Aes128Gcm))] {
             let c = Cfg::random(&mut rng, proto, 0);
@@ -677,6 +684,73 @@ pub async fn run(a: &Args) -> Report {
                 rep.violation(format!("C16|bad-value|{}|accepted-and-serving tcp={} udp={}", name, s.tcp.contains(&port), s.udp.contains(&port)), format!("bad configuration value ({name}) is accepted and the entry serves traffic"), json!({"entry": entry, "log": s.log}));
             } else if !reported {
                 rep.violation(format!("C16|bad-value|{}|no-error-reported", name), format!("bad configuration value ({name}): nothing listens but no error is reported either"), json!({"entry": entry, "log": s.log, "exit": s.exited}));
+            } else {
+                rep.mon("bad_values_reported_as_errors", 1);
+            }
+            s.node.kill();
+        }
+    }
+    // one of the two sockets of a two-socket mode cannot be opened (the port is taken for that protocol only): the documented
+    // socket set cannot be had, so the entry / the client must report that and not serve with half of it
+    for (role, busy) in [("server", "udp"), ("server", "tcp"), ("client", "udp"), ("client", "tcp")] {
+        let port = free_port();
+        let _hold_udp = if busy == "udp" { std::net::UdpSocket::bind(("127.0.0.1", port)).ok() } else { None };
+        let _hold_tcp = if busy == "tcp" { std::net::TcpListener::bind(("127.0.0.1", port)).ok() } else { None };
+        if _hold_udp.is_none() && _hold_tcp.is_none() {
+            continue;
+        }
+        let c = Cfg::random(&mut rng, Proto::Ss(refimpl::ss::Method::B3Aes128Gcm), 0);
+        let conf = if role == "server" { json!([c.server_entry("127.0.0.1", port, "tcp_and_udp")]) } else { json!({"port": port, "mode": "tcp_and_udp", "index": 0, "servers": [c.client_entry("127.0.0.1", free_port())]}) };
+        let (t, dd, conf2) = (tag(), dir.clone(), conf.clone());
+        let st = tokio::task::spawn_blocking(move || start_and_observe(role, &conf2, &dd, &t, Duration::from_millis(700))).await.unwrap();
+        rep.evaluations += 1;
+        rep.mon("bad_values_tried", 1);
+        let name = format!("{role}-mode-tcp_and_udp-with-the-{busy}-port-taken");
+        rep.distinct.insert(crate::report::hash_of(&("bad", &name)));
+        if let Ok(mut s) = st {
+            // what the process itself holds on that port (the harness holds the other protocol)
+            let serves = if busy == "udp" { s.tcp.contains(&port) } else { s.udp.contains(&port) };
+            let reported = s.exited.map_or(false, |c| c != 0) || s.log.contains("ERROR");
+            if has_panic(&s.log, s.exited) {
+                rep.violation(format!("C16|bad-value|{name}|panic"), format!("{name}: panic"), json!({"config": conf, "log": s.log, "exit": s.exited}));
+            } else if serves && !reported {
+                rep.violation(format!("C16|bad-value|{name}|serves-with-half-of-the-documented-sockets-and-reports-nothing"), format!("{name}: the process serves {} only and reports no error", if busy == "udp" { "TCP" } else { "UDP" }), json!({"config": conf, "log": s.log, "exit": s.exited}));
+            } else if serves {
+                rep.violation(format!("C16|bad-value|{name}|serves-with-half-of-the-documented-sockets"), format!("{name}: an error is logged but the process goes on serving {} only", if busy == "udp" { "TCP" } else { "UDP" }), json!({"config": conf, "log": s.log, "exit": s.exited}));
+            } else if !reported {
+                rep.violation(format!("C16|bad-value|{name}|no-error-reported"), format!("{name}: nothing is served and nothing reported"), json!({"config": conf, "log": s.log, "exit": s.exited}));
+            } else {
+                rep.mon("bad_values_reported_as_errors", 1);
+            }
+            s.node.kill();
+        }
+    }
+    // misspelt cipher names on the client: no listener that relays under some other cipher
+    for (proto, cipher) in [(Proto::Vmess(3), "chacha20-poly-1305"), (Proto::Vmess(3), "aes-128-gmc"), (Proto::Vmess(3), "AES-128-GCM"), (Proto::Vmess(3), ""), (Proto::Ss(refimpl::ss::Method::Aes128Gcm), "aes-128-gmc"), (Proto::Ss(refimpl::ss::Method::Aes128Gcm), "AES-128-GCM"), (Proto::Trojan, "Unknown")] {
+        let v = Cfg::random(&mut rng, proto, 1);
+        let l = tokio::net::TcpListener::bind("127.0.0.1:0").await.unwrap();
+        let sport = l.local_addr().unwrap().port();
+        let cport = free_port();
+        let mut e = v.client_entry("127.0.0.1", sport);
+        e["cipher"] = json!(cipher);
+        let conf = json!({"port": cport, "mode": "tcp", "index": 0, "servers": [e]});
+        let (t, dd, conf2) = (tag(), dir.clone(), conf.clone());
+        let st = tokio::task::spawn_blocking(move || start_and_observe("client", &conf2, &dd, &t, Duration::from_millis(500))).await.unwrap();
+        rep.evaluations += 1;
+        rep.mon("bad_values_tried", 1);
+        let name = format!("client-misspelt-cipher/{}/{:?}", proto.name().split('/').next().unwrap_or(""), cipher);
+        rep.distinct.insert(crate::report::hash_of(&("bad", &name)));
+        if let Ok(mut s) = st {
+            if has_panic(&s.log, s.exited) {
+                rep.violation(format!("C16|bad-value|{name}|panic"), "panic".to_string(), json!({"log": s.log}));
+            } else if s.exited.is_none() && s.tcp.contains(&cport) && proto != Proto::Trojan {
+                // it listens: then nothing it sends may be a request a reference server of the NEAREST documented cipher can serve
+                // (Trojan has no cipher: the name is not used, a listener is fine)
+                if canary_ref_server(&v, l, cport, &mut rng).await.is_ok() {
+                    rep.violation(format!("C16|bad-value|{name}|silent-fallback-to-a-documented-cipher"), format!("a client configured with the cipher name {cipher:?} relays under a documented cipher without a word"), json!({"config": conf, "log": s.node.log_tail(6)}));
+                } else {
+                    rep.mon("bad_values_reported_as_errors", 1);
+                }
             } else {
                 rep.mon("bad_values_reported_as_errors", 1);
             }
